@@ -1,0 +1,52 @@
+// SPDX-FileCopyrightText: 2019, 2020, 2021 Alvar Penning
+//
+// SPDX-License-Identifier: GPL-3.0-or-later
+
+//go:build verif
+// +build verif
+
+package storage
+
+import (
+	"os"
+	"strconv"
+	"strings"
+	"sync"
+)
+
+// verifSched is set by the verification harness to observe / park goroutines at the named points.
+var verifSched func(name string)
+
+var (
+	verifMutex sync.Mutex
+	verifHits  = make(map[string]int)
+)
+
+// verifPoint marks a crash / schedule point for the verification harness.
+//
+// If the environment variable VERIF_CRASH=<name>:<nth> is set, the process exits with code 77 at the nth hit of the
+// point called name. Otherwise, a registered verifSched function is called.
+func verifPoint(name string) {
+	if spec := os.Getenv("VERIF_CRASH"); spec != "" {
+		if i := strings.LastIndex(spec, ":"); i > 0 && spec[:i] == name {
+			nth, _ := strconv.Atoi(spec[i+1:])
+
+			verifMutex.Lock()
+			verifHits[name]++
+			hit := verifHits[name]
+			verifMutex.Unlock()
+
+			if hit == nth {
+				os.Exit(77)
+			}
+		}
+	}
+
+	verifMutex.Lock()
+	sched := verifSched
+	verifMutex.Unlock()
+
+	if sched != nil {
+		sched(name)
+	}
+}
